@@ -48,3 +48,10 @@ pub fn take_events() -> Vec<String> {
 pub fn n_events() -> usize {
     EVENTS.with(|e| e.borrow().len())
 }
+
+/// Run `f` with a task context whose waker does nothing.
+pub fn with_cx<R>(f: impl FnOnce(&mut Context<'_>) -> R) -> R {
+    let waker = Waker::from(Arc::new(NoopWaker));
+    let mut cx = Context::from_waker(&waker);
+    f(&mut cx)
+}
